@@ -18,6 +18,17 @@ func vhYearPrint(y *LunarYear) int {
 	return h
 }
 
+// fingerprint of a lunar date: its fields and the solar-term table it carries
+func vhDatePrint(l *Lunar) int {
+	h := ((l.year*13+l.month)*31+l.day)*24 + l.hour
+	h = (h*131 + l.solar.year*400 + l.solar.month*31 + l.solar.day) % 1000000007
+	for _, k := range JIE_QI_IN_USE {
+		e := l.jieQi[k]
+		h = (h*131 + ((e.year*13+e.month)*31+e.day)*86400 + e.hour*3600 + e.minute*60 + e.second) % 1000000007
+	}
+	return h
+}
+
 // one public call from a small menu; returns (panicked, fingerprint)
 func vhOp(op, A, B int) (bool, int) {
 	fp := 0
@@ -49,6 +60,10 @@ func VH_C09_History() {
 	X := vParam("X")
 	p0, f0 := vhOp(X, A, B)
 	vAssert("lock-free-after-first", vhLockFree())
+	// objects handed out earlier must not change under later calls: a year table and a date are held across the history
+	heldYear := NewLunarYear(A)
+	heldDate := NewSolar(B, 6, 15, 12, 0, 0).GetLunar()
+	hy0, hd0 := vhYearPrint(heldYear), vhDatePrint(heldDate)
 	// H calls (unit parameter, default 3) chosen by the solver from the menu
 	H := 3
 	if vHasParam("H") {
@@ -61,6 +76,7 @@ func VH_C09_History() {
 	}
 	p1, f1 := vhOp(X, A, B)
 	vAssert("same-outcome-after-history", p0 == p1 && f0 == f1)
+	vAssert("held-objects-unchanged", vhYearPrint(heldYear) == hy0 && vhDatePrint(heldDate) == hd0)
 	vReach("C09a")
 }
 
